@@ -29,6 +29,7 @@ type Env struct {
 	bound map[string]Term
 	depth int
 	oldVars map[string]TV // values of loop-carried locals at the head of the iteration (loop iter clauses)
+	outer *State // invariants of an inner loop: state at the head of the enclosing loop's current iteration
 }
 
 func (ex *Exec) newEnv(fr *Frame, st, old *State) *Env {
@@ -36,7 +37,7 @@ func (ex *Exec) newEnv(fr *Frame, st, old *State) *Env {
 }
 
 func (e *Env) child() *Env {
-	n := &Env{ex: e.ex, fr: e.fr, vars: map[string]TV{}, st: e.st, old: e.old, bound: map[string]Term{}, depth: e.depth + 1, oldVars: e.oldVars}
+	n := &Env{ex: e.ex, fr: e.fr, vars: map[string]TV{}, st: e.st, old: e.old, bound: map[string]Term{}, depth: e.depth + 1, oldVars: e.oldVars, outer: e.outer}
 	for k, v := range e.vars {
 		n.vars[k] = v
 	}
@@ -594,6 +595,18 @@ func (ex *Exec) evalCall(x *ast.CallExpr, env *Env) TV {
 		}
 		for k, v := range env.oldVars {
 			oe.vars[k] = v
+		}
+		return ex.eval(x.Args[0], oe)
+	case "outer":
+		// outer(e) in an invariant of an inner loop: e (ghosts, heap) at the head
+		// of the current iteration of the enclosing loop
+		if env.outer == nil {
+			return ex.evalErr("outer(...) outside the invariant of a nested loop")
+		}
+		oe := env.child()
+		oe.st = env.outer
+		for g, v := range env.outer.ghost {
+			oe.vars[g] = TV{v, nil}
 		}
 		return ex.eval(x.Args[0], oe)
 	case "implies":
